@@ -13,8 +13,6 @@ import (
 	"sync/atomic"
 
 	jdoc "github.com/jsightapi/jsight-schema-go-library/formats/json"
-	"github.com/jsightapi/jsight-schema-go-library/notations/jschema"
-	"github.com/jsightapi/jsight-schema-go-library/rules/enum"
 )
 
 type Event struct {
@@ -75,28 +73,6 @@ func jsonEventsAfter(text []byte, trailing bool, prelude int) (evs []Event, eof 
 		evs = append(evs, Event{lex.Type().String(), int(lex.Begin()), int(lex.End())})
 	}
 	return evs, false, "no termination"
-}
-
-func schemaEvents(text []byte) (evs []Event, fail string) {
-	raw, _, f := jschema.VerifScan(text, false)
-	for _, e := range raw {
-		evs = append(evs, Event{e.Type, e.Begin, e.End})
-	}
-	if f != nil {
-		fail = fmt.Sprint(f)
-	}
-	return
-}
-
-func enumEvents(text []byte) (evs []Event, fail string) {
-	raw, f := enum.VerifScan(text)
-	for _, e := range raw {
-		evs = append(evs, Event{e.Type, e.Begin, e.End})
-	}
-	if f != nil {
-		fail = fmt.Sprint(f)
-	}
-	return
 }
 
 func sameEvents(a, b []Event) bool {
